@@ -138,6 +138,14 @@ class PyDict(object):
         self.present = dict(present or {})  # key -> z3 Bool (symbolic presence); absent => definitely present
 
 
+class Bag(object):
+    """A freshly created local container (list/dict/set) whose content is not tracked: reads give unconstrained
+    values, writes are forgotten (A-LOCALS: operations on such containers with hashable keys raise nothing)."""
+
+    def __init__(self, what="container"):
+        self.what = what
+
+
 class Obj(object):
     def __init__(self, cls, fields=None):
         self.cls = cls  # ClassV
